@@ -125,11 +125,11 @@ Proof. exact (deep_recursion_program (N.to_nat stack_limit)). Qed.
    calls disabled the same loop overflows a limit of 50 frames *)
 Example C09_example :
   loop_heads_render 50 100000
-    [("lp"%string, ELam ["i"; "acc"]%string (EIf (EApp (EVar "=") [EVar "i"; EConst (KInt 0)]) (EVar "acc")
+    [("lp"%string, ELam ["i"; "acc"]%string None (EIf (EApp (EVar "=") [EVar "i"; EConst (KInt 0)]) (EVar "acc")
         (EApp (EVar "lp") [EApp (EVar "-") [EVar "i"; EConst (KInt 1)]; EApp (EVar "+") [EVar "acc"; EConst (KInt 2)]]))%string)]
     (EApp (EVar "lp"%string) [EConst (KInt 300); EConst (KInt 0)]) = "OK I600 | 1,2"%string /\
   render_run (vm_program 50 false false 100000
-    [("lp"%string, ELam ["i"; "acc"]%string (EIf (EApp (EVar "=") [EVar "i"; EConst (KInt 0)]) (EVar "acc")
+    [("lp"%string, ELam ["i"; "acc"]%string None (EIf (EApp (EVar "=") [EVar "i"; EConst (KInt 0)]) (EVar "acc")
         (EApp (EVar "lp") [EApp (EVar "-") [EVar "i"; EConst (KInt 1)]; EApp (EVar "+") [EVar "acc"; EConst (KInt 2)]]))%string)]
     (EApp (EVar "lp"%string) [EConst (KInt 300); EConst (KInt 0)])) = "ERR Generic"%string.
 Proof. vm_compute. split; reflexivity. Qed.
